@@ -17,7 +17,7 @@ for id in $IDS; do
   rsync -a --exclude .git /repo/ $T/repo/
   if ! (cd $T/repo && patch -s -p1 < /verif/selftest/mutants/$id.patch); then echo "SKIP $id (patch no longer applies)"; skip=$((skip+1)); rm -rf $T; continue; fi
   if ! (cd $T/repo && go build ./... 2>$T/build.log); then echo "SKIP $id (mutant does not compile)"; skip=$((skip+1)); rm -rf $T; continue; fi
-  out=$(bin/govc check -prop $PROP -repo $T/repo -fn "$FN" -noreplay 2>&1); rc=$?
+  out=$(bin/govc check -prop $PROP -repo $T/repo -fn "$FN" -noreplay -known /verif/known_findings.json 2>&1); rc=$?
   if [ $rc -eq 1 ] && echo "$out" | grep -E "^FAILED .*($EXPECT)" >/dev/null; then echo "CAUGHT $id: $(echo "$out" | grep -E "^FAILED .*($EXPECT)" | head -1)"; pass=$((pass+1));
   else echo "MISSED $id (rc=$rc)"; echo "$out" | tail -3; fail=$((fail+1)); fi
   rm -rf $T
